@@ -357,9 +357,65 @@ def default_cases(rng, tier, n_classes):
     return cases
 
 
+def transplant_cases(rng, tier, n_classes):
+    """the same type-directed cases, but every collection among the ARGUMENTS (constructor keywords and chain
+    overrides, at every depth) is first stored in a field of ANOTHER instance whose declaration is as lax as can be
+    (Array[Anything], Map[Anything, Anything], Deque[Anything], Set[Anything]) and read back from it: what the entry
+    point receives is the library's own typed wrapper (_ListStruct / _DictStruct / _DequeStruct), validated by someone
+    else's declaration.  The model sees the same content; the decision must not depend on where a value was stored."""
+    out = []
+    for c in gen_cases(rng, tier, n_classes, prefix="T"):
+        if not _has_collection([v for _, v in c["kw"]] + [v for op in c.get("chain", []) for _, v in op.get("kw", [])]):
+            continue
+        c["transplant"] = True
+        c["stream"] = "tp-" + c["stream"]
+        out.append(c)
+    return out
+
+
+def _has_collection(j):
+    if isinstance(j, list):
+        return any(_has_collection(x) for x in j)
+    if isinstance(j, dict):
+        return any(k in j for k in ("l", "q", "m", "s")) or any(_has_collection(x) for x in j.values())
+    return False
+
+
+_LAX = {}
+
+
+def _lax_class(kind):
+    from typedpy import Anything, Array, Deque, Map, Set
+    if kind not in _LAX:
+        fld = {"l": lambda: Array[Anything], "q": lambda: Deque[Anything], "m": lambda: Map[Anything, Anything], "s": lambda: Set[Anything]}[kind]()
+        _LAX[kind] = type("Lax_" + kind, (Structure,), {"f": fld, "_required": []})
+    return _LAX[kind]
+
+
+def transplant(v, depth=0):
+    """the value as read from a laxly declared field of another instance (nested collections first)"""
+    import collections
+    try:
+        if isinstance(v, Structure) or depth > 6:
+            return v
+        if isinstance(v, collections.deque):
+            return _lax_class("q")(f=collections.deque(transplant(x, depth + 1) for x in v)).f
+        if isinstance(v, list):
+            return _lax_class("l")(f=[transplant(x, depth + 1) for x in v]).f
+        if isinstance(v, tuple):
+            return tuple(transplant(x, depth + 1) for x in v)
+        if isinstance(v, dict):
+            return _lax_class("m")(f={k: transplant(x, depth + 1) for k, x in v.items()}).f
+        if isinstance(v, set):
+            return _lax_class("s")(f=v).f
+    except Exception:
+        return v
+    return v
+
+
 # ------------------------------------------------------------------ real code
 
-def preload_chain(chain, ctx):
+def preload_chain(chain, ctx, tp=False):
     """build the override values of every op up front; an op whose override cannot be built
     (generated nested instance invalid) loses its override"""
     out = []
@@ -367,6 +423,8 @@ def preload_chain(chain, ctx):
         name = op["op"]
         try:
             kw = {k: dump.load_value(v, ctx) for k, v in op.get("kw", [])}
+            if tp:
+                kw = {k: transplant(v) for k, v in kw.items()}
         except Exception:
             kw = {}
         rec = {"op": name, "kw": [[k, rename_inline(dump.dump_value(v, ctx), ctx)] for k, v in kw.items()],
@@ -423,6 +481,8 @@ def run_impl(case):
         kw = {k: dump.load_value(v, ctx) for k, v in case["kw"]}
     except Exception as e:
         return {"unbuildable": f"value: {type(e).__name__}: {e}"}
+    if case.get("transplant"):
+        kw = {k: transplant(v) for k, v in kw.items()}
     kw_actual = [[k, rename_inline(dump.dump_value(v, ctx), ctx)] for k, v in kw.items()]
     snap_before = json.dumps([[k, dump.dump_value(v, ctx)] for k, v in kw.items()], sort_keys=True)
     try:
@@ -440,7 +500,7 @@ def run_impl(case):
                                                       sort_keys=True)
     if x is not None and case.get("chain"):
         applied = []
-        loaded = preload_chain(case["chain"], ctx)
+        loaded = preload_chain(case["chain"], ctx, tp=bool(case.get("transplant")))
         try:
             y = apply_chain(x, loaded, applied)
             res["chain"] = {"ok": rename_inline(dump.dump_value(y, ctx), ctx), "applied": applied}
@@ -563,5 +623,9 @@ def chain_correspondence(case, impl, model):
     if "ok" in ic:
         return f"chain {ic.get('applied')}: model raises {mc['err']}, real code succeeds"
     if ic["err"] != mc["err"]:
+        if case["cls"].get("defaults") and ic["err"] in model.get("chainErrs", []):
+            # several invalid fields at the failing step (an invalid falsy default next to an invalid argument): the real
+            # constructor applies the defaults before the arguments, the model goes field by field
+            return None
         return f"chain {ic.get('applied')}: exception class differs: model {mc['err']}, real code {ic['err']}: {ic.get('msg')}"
     return None
